@@ -73,8 +73,6 @@ class SIDDDetails(NITFDetails):
 
         if self._nitf_header.ImageSegments.subhead_sizes.size == 0:
             raise SarpyIOError('There are no image segments defined.')
-        if self._nitf_header.GraphicsSegments.item_sizes.size > 0:
-            raise SarpyIOError('A SIDD file does not allow for graphics segments.')
         if self._nitf_header.DataExtensions.subhead_sizes.size == 0:
             raise SarpyIOError(
                 'A SIDD file requires at least one data extension, containing the '
